@@ -1,6 +1,13 @@
 //! Facade for `parking_lot`: the genuine `lock_api` types over the simulator's raw locks.
 pub use lock_api;
-pub use simrt::sync::{RawMutex, RawRwLock};
+pub use simrt::sync::{Condvar, RawMutex, RawRwLock, RawThreadId, WaitTimeoutResult};
+
+/// The simulator's mutex hands the lock over through the scheduler at every release, so the
+/// fair variant is the same type.
+pub type FairMutex<T> = lock_api::Mutex<RawMutex, T>;
+pub type FairMutexGuard<'a, T> = lock_api::MutexGuard<'a, RawMutex, T>;
+pub type ReentrantMutex<T> = lock_api::ReentrantMutex<RawMutex, RawThreadId, T>;
+pub type ReentrantMutexGuard<'a, T> = lock_api::ReentrantMutexGuard<'a, RawMutex, RawThreadId, T>;
 
 pub type Mutex<T> = lock_api::Mutex<RawMutex, T>;
 pub type MutexGuard<'a, T> = lock_api::MutexGuard<'a, RawMutex, T>;
